@@ -53,6 +53,9 @@ def parseObs (fs : List String) : List String × List Nat :=
 def parseEv : List String → Option Ev
   | ["adv", d] => (nat? d).map .adv
   | ["w", k, rows] => do let k ← nat? k; let r ← parseRows rows; pure (.write k r)
+  | ["wt", k, rows] => do let k ← nat? k; let r ← parseRows rows; pure (.writeT false k r)
+  | ["wd", k, rows] => do let k ← nat? k; let r ← parseRows rows; pure (.writeT true k r)
+  | ["stall"] => some .stall
   | ["wpause"] => some .wpause
   | ["wresume"] => some .wresume
   | ["hold"] => some .hold
